@@ -248,3 +248,105 @@ def dispatch_engine():
 
 
 VERIFY_DISPATCH = [ExportControl(), ExportAnalysis()]
+
+
+# ---------------------------------------------------------------------------------------------------------------------
+# export_attr: each Sim attribute lands, converted by its own exporter, at the END of exactly one of the SimInput's three
+# lists (options / analyses / controls) and the other two lists are untouched - so the lists hold one entry per attribute
+# in the original order (the loop in export() visits sim.attrs in order).
+# ---------------------------------------------------------------------------------------------------------------------
+class ExportOptionsLeaf(Leaf):
+    def __init__(self):
+        Leaf.__init__(self, "hdl21.sim.proto:export_options")
+        self.result_classes = (vsp.SimOptions,)
+
+
+class ExportAnalysisLeaf(Leaf):
+    def __init__(self):
+        Leaf.__init__(self, "hdl21.sim.proto:SimProtoExporter.export_analysis")
+        self.result_classes = (vsp.Analysis,)
+        self.pure = False
+
+    def frame(self, eng, st, a):
+        st.heap.havoc_field("analysis_count")       # unnamed analyses draw a fresh name
+
+
+class ExportControlLeaf(Leaf):
+    def __init__(self):
+        Leaf.__init__(self, "hdl21.sim.proto:export_control")
+        self.result_classes = (vsp.Control,)
+
+
+ATTR_LISTS = {"opts": "hdl21.sim.proto:export_options", "an": "hdl21.sim.proto:SimProtoExporter.export_analysis",
+              "ctrls": "hdl21.sim.proto:export_control"}
+
+
+class ExportAttr(Contract):
+    key = "hdl21.sim.proto:SimProtoExporter.export_attr"
+    props = ("C17",)
+    pure = False
+    raises = (TypeError, ValueError)
+    returns = "none"
+
+    def scenarios(self, eng):
+        groups = {"option": (data.Options,), "analysis": tuple(c for c, _ in AN_KINDS.values()),
+                  "control": tuple(c for c, _ in CTRL_KINDS.values() if isinstance(c, type))}
+        for nm, classes in groups.items():
+            for cls in classes:
+                def setup(eng, st, cls=cls):
+                    me = sym_ref(st, "self", (SimProtoExporter,))
+                    inp = st.heap.get("inp", me.z)
+                    st.assume(z3.And(inp != NULL, st.heap.get("$alive", inp),
+                                     st.heap.get("$cls", inp) == st.classid(vsp.SimInput)))
+                    return {"self": me, "attr": sym_ref(st, "attr", (cls,))}
+                yield Scenario(f"{nm}:{cls.__name__}", setup)
+
+        def bad(eng, st):
+            me = sym_ref(st, "self", (SimProtoExporter,))
+            inp = st.heap.get("inp", me.z)
+            st.assume(z3.And(inp != NULL, st.heap.get("$alive", inp), st.heap.get("$cls", inp) == st.classid(vsp.SimInput)))
+            return {"self": me, "attr": sym_ref(st, "attr", (data.Sim, Signal))}
+        s = Scenario("not-an-attribute", bad)
+        s.expect_raise = True
+        yield s
+
+    def _which(self, eng, st0, a):
+        cls = eng.classes_of(st0, a.attr)[0]
+        if issubclass(cls, data.Options):
+            return "opts"
+        if any(issubclass(cls, c) for c, _ in AN_KINDS.values()):
+            return "an"
+        if any(isinstance(c, type) and issubclass(cls, c) for c, _ in CTRL_KINDS.values()):
+            return "ctrls"
+        return None
+
+    def p_append(self, eng, st0, st, a, res):
+        which = self._which(eng, st0, a)
+        if which is None:
+            return False
+        inp = st0.heap.get("inp", a.self.z)
+        calls = [c for c in st.calls if c[0] == ATTR_LISTS[which]]
+        if len(calls) != 1:
+            return False
+        cs = []
+        for f in ATTR_LISTS:
+            s0, s1 = st0.heap.get(f, inp), st.heap.get(f, inp)
+            if f == which:
+                cs.append(z3.And(z3.Length(s1) == z3.Length(s0) + 1, z3.PrefixOf(s0, s1)))
+            else:
+                cs.append(s1 == s0)
+        return z3.And(cs)
+    posts = property(lambda self: [("appended-to-exactly-one-list", self.p_append)])
+    must_raise = property(lambda self: [("not-an-attribute", lambda eng, st0, a: self._which(eng, st0, a) is None)])
+
+
+def attr_engine():
+    schema = dict(SCHEMA_EXTRA)
+    schema.update({"inp": "ref", "opts": "seq[ref]", "an": "seq[ref]", "ctrls": "seq[ref]", "analysis_count": "int"})
+    eng = mk_engine(contracts=[ExportOptionsLeaf(), ExportAnalysisLeaf(), ExportControlLeaf()], schema_extra=schema,
+                    inline={"hdl21.sim.data:is_analysis", "hdl21.sim.data:is_control"})
+    eng.field_classes["inp"] = (vsp.SimInput,)
+    return eng
+
+
+VERIFY_ATTR = [ExportAttr()]
